@@ -432,7 +432,8 @@ def main(ctx):
     base = T.run_session(payloads, mitm=T.Mitm([]))
     ctx.require(base['outcome'] == 'ok', f'baseline session: {base}')
     inj_classes = ['IGNORE', 'DEBUG', 'UNIMPLEMENTED', 'UNKNOWN_LOW',
-                   'SERVICE_REQUEST', 'USERAUTH_SUCCESS', 'CHANNEL_OPEN',
+                   'SERVICE_REQUEST', 'SERVICE_ACCEPT', 'USERAUTH_SUCCESS',
+                   'CHANNEL_OPEN',
                    'KEXINIT', 'NEWKEYS', 'KEXOTHER', 'DISCONNECT', 'EXT_INFO']
     for d in ('cs', 'sc'):
         for pos in range(1, 5):        # before version+1 .. before NEWKEYS
@@ -449,6 +450,30 @@ def main(ctx):
                                   f'cleartext injection of {cls} in {d} '
                                   f'before packet {pos} went unnoticed under '
                                   f'strict key exchange',
+                                  replay={'kind': 'clear', 'dir': d,
+                                          'pos': pos, 'class': cls})
+                # the receiver of a cleartext message the table refuses in its
+                # phase (before packet 3: exchange running, P1; before the
+                # sender's NEWKEYS: the receiver's own NEWKEYS is out, P1w)
+                # puts nothing on the wire in answer to it but DISCONNECT /
+                # UNIMPLEMENTED - both roles, also when the session fails later
+                role = 'server' if d == 'cs' else 'client'
+                mph = {3: 'P1', 4: 'P1w'}.get(pos)
+                late = [x for x in (m.after or ()) if x not in (1, 3)]
+                if mph and m.after is not None and \
+                        tab.get((role, mph, cls, True)) == 'fatal':
+                    ctx.coverage['clear_refused_rows_observed'] = \
+                        ctx.coverage.get('clear_refused_rows_observed', 0) + 1
+                if mph and late and \
+                        tab.get((role, mph, cls, True)) == 'fatal':
+                    ctx.violation({'module': 'Gate', 'phase': mph,
+                                   'role': role, 'dir': d, 'pos': pos,
+                                   'class': cls,
+                                   'clause': 'AnsweredOutOfPhase'},
+                                  f'{role}, first key exchange: cleartext '
+                                  f'{cls} before packet {pos} of the peer is '
+                                  f'refused in phase {mph}, but the {role} '
+                                  f'answered it with {late}',
                                   replay={'kind': 'clear', 'dir': d,
                                           'pos': pos, 'class': cls})
     # Terrapin: insert IGNORE before NEWKEYS, drop the first encrypted packet
@@ -496,6 +521,11 @@ class ClearInjector:
         self.fired = False
         self.dropped = False
         self.rec = None
+        # what the receiver of the forged packets emits once it has taken the
+        # first of them in: pos - 2 genuine packets precede it (the version
+        # line is write 1), so it is the receiver's (pos - 1)-th packet
+        self.taken = 0
+        self.after = None
 
     def attach(self, rec, ct, st):
         from asyncssh import _verif
@@ -506,6 +536,17 @@ class ClearInjector:
             orig(name, f)
             if name == 'pkt_out' and f['pkttype'] == 21:
                 self.enc['cs' if f['conn'].is_client() else 'sc'] = True
+            conn = f.get('conn')
+            if conn is None or self.pos < 2:
+                return
+            receiver = conn.is_client() == (self.d == 'sc')
+            if name == 'pkt_in' and receiver:
+                self.taken += 1
+                if self.fired and self.taken == self.pos - 1 and \
+                        self.after is None:
+                    self.after = []
+            elif name == 'pkt_out' and receiver and self.after is not None:
+                self.after.append(f['pkttype'])
         _verif.set_sink(sink)
 
     def changed(self, d):
